@@ -336,7 +336,7 @@ def runCase (e : SExp) : Array String :=
       | .error err => (o.put "load" ("err:" ++ err.toStr), none)
       | .ok H =>
         let o := o.put "load" "ok"
-        let o := o.put "wf" ((if H.wf then "1" else "0") ++ (if H.regExact then "1" else "0"))
+        let o := o.put "wf" ((if H.wf then "1" else "0") ++ (if H.regExact then "1" else "0") ++ (if H.sizesExact then "1" else "0"))
         let o := emitLoad "" H o
         let o := if want.contains "ann" then emitAnn H o else o
         let o := if want.contains "nav" then emitNav H o else o
